@@ -62,6 +62,11 @@ WHAT MAKES A GOOD CHANGE
 {os.linesep.join('    - ' + t for t in prev) if prev else '    (none yet)'}
 * Prefer a change in code the property's anchors point at, but any file of the library is allowed (src/, include/).
   Do not edit the tests.
+* The verification effort being evaluated drives the library through a test harness and compares it with a model.  Look
+  for places such a harness is LEAST likely to reach: alternative constructors and overloads, rarely used public entry
+  points, capability flags nobody sets, degenerate or extreme but legal argument values (zero, one, maximum, negative
+  where the type allows it), unusual orders of otherwise ordinary calls, objects that are copied / moved / reused,
+  behaviour that only differs on the second or third repetition of something.
 
 COMMANDS (run inside the worktree)
   build + tests:
